@@ -17,7 +17,9 @@ import numpy as np  # noqa: E402
 from harness import runs as R  # noqa: E402
 
 
-def digest_of(spec, pollute):
+def digest_of(spec, pollute, holder=None):
+    """holder: a dict shared by consecutive calls — the sprout mechanism object built by the first call serves
+    the later ones too (a user running one configured mechanism more than once in a process)"""
     import pyhms.tree as T
     from pyhms.config import TreeConfig
 
@@ -26,7 +28,9 @@ def digest_of(spec, pollute):
     for _ in range(pollute % 7):
         random.random()
         np.random.rand()
-    o = R.build(spec, None, plain="callable")
+    o = R.build(spec, None, plain="callable", reuse_sm=None if holder is None else holder.get("sm"))
+    if holder is not None:
+        holder["sm"] = o["sm"]
     opts = {"random_seed": spec["seed"], "hibernation": spec["hibernation"]}
     tree = T.DemeTree(TreeConfig(o["levels"], o["gsc"], o["sm"], options=opts, config_class_to_deme_class=o["custom"]))
     after_init = hashlib.sha1(np.random.get_state()[1].tobytes() + repr(random.getstate()).encode()).hexdigest()[:12]
